@@ -164,7 +164,8 @@ def answer (op : String) : Option (Outcome × Outcome × Outcome) := do
     ctJSON := ctJSON ct
     acrm := acrm != "-" }
   let r ← routeFor (← kv toks "path") (commaList ((kv toks "gui").getD ""))
-  let spec := specDecide verifyDoc cfg r.ver r.csrfChecked r.gate? req
+  -- the specification protects every route except the token endpoint (not: whatever the chain has)
+  let spec := specDecide verifyDoc cfg r.ver (r.path != "/api/v1/csrf") r.gate? req
   let model := Sky.C27.decide verifyDoc cfg r req
   let code := Sky.C27.decide verifyCode cfg r req
   pure (spec, model, code)
